@@ -174,7 +174,11 @@ def _worker_inner(pid, case, timeout, mod, t0):
         r = {"fails": [], "diffs": [], "timeout": True}
     except common.DriverError as e:
         r = {"fails": [], "diffs": [], "infra": f"driver: {e}"}
-    except Exception as e:  # harness bug or unexpected exception of the real code
+    except BaseException as e:  # harness bug or unexpected exception of the real code
+        # BaseException on purpose: a panic inside the AEON extension (pyo3 `PanicException`) does not derive from
+        # Exception; uncaught it kills the pool worker and the whole campaign waits for ever for its result
+        if isinstance(e, (KeyboardInterrupt, SystemExit, GeneratorExit)):
+            raise
         msg = ("".join(traceback.format_exception_only(type(e), e)).strip()[:300]
                + " @ " + traceback.format_tb(e.__traceback__)[-1].strip()[:200])
         frames = traceback.extract_tb(e.__traceback__)
@@ -255,10 +259,23 @@ def matches_finding(pid, fail, findings):
 
 
 def run_campaign(pid, mod, cases, timeout, procs=16):
+    """every case in a pool of worker processes; a worker that dies hard (segmentation fault of a foreign engine) or
+    hangs outside the per-case guard must not block the check for ever: the wait for the *next* result is bounded"""
     results = []
-    with mp.Pool(processes=procs, maxtasksperchild=200) as pool:
-        for r in pool.imap_unordered(_worker, [(pid, c, timeout) for c in cases], chunksize=1):
-            results.append(r)
+    pool = mp.Pool(processes=procs, maxtasksperchild=200)
+    try:
+        it = pool.imap_unordered(_worker, [(pid, c, timeout) for c in cases], chunksize=1)
+        for _ in range(len(cases)):
+            try:
+                results.append(it.next(timeout=6 * timeout + 300))
+            except mp.TimeoutError:
+                results.append({"fails": [], "diffs": [], "case": None, "lost": True,
+                                "infra": f"no result from any worker for {6 * timeout + 300} s: a worker process died or hangs; "
+                                         f"{len(cases) - len(results)} cases were not run"})
+                break
+    finally:
+        pool.terminate()
+        pool.join()
     return results
 
 
@@ -438,6 +455,9 @@ def main():
             print("DIFF " + json.dumps(diffs[0][0], default=str)[:500])
         print(f"VIOLATION property={pid} replay={os.path.relpath(path, OUT)} no-failing-input-found")
         rc = 1
+    elif any(r.get("lost") for r in results):
+        print(f"INCONCLUSIVE property={pid}: {[r['infra'] for r in results if r.get('lost')][0]}")
+        rc = 2
     elif infra and len(infra) > max(2, len(results) // 50):
         print(f"INCONCLUSIVE property={pid}: {len(infra)} infrastructure errors, e.g. {infra[0][0]}")
         rc = 2
